@@ -44,12 +44,39 @@ def run(case):
     return {"nbins": n, "hits": hits}
 
 
+def run_pair(case):
+    """two instances of ONE parameterised covergroup class with different wildcard patterns: per-instance and per-type hits"""
+    from vsc.impl import ctor
+    ctor.test_setup()
+
+    @vsc.covergroup
+    class pcg(object):
+        def __init__(self, specs):
+            self.with_sample(dict(a=vsc.bit_t(16)))
+            self.cp = vsc.coverpoint(self.a, bins={"b": vsc.wildcard_bin(*[(s[1], s[2]) for s in specs])})
+    insts = [pcg(sp) for sp in case["pair"]]
+    for k, inst in enumerate(insts):
+        for v in case["samples"][k]:
+            inst.sample(v)
+    out = []
+    for inst in insts:
+        m = inst.get_model()
+        t = m.type_cg
+        out.append({"inst_hits": [m.coverpoint_l[0].get_bin_hits(i) for i in range(m.coverpoint_l[0].get_n_bins())],
+                    "type_hits": [t.coverpoint_l[0].get_bin_hits(i) for i in range(t.coverpoint_l[0].get_n_bins())],
+                    "type_id": id(t), "inst_cov": float(inst.get_inst_coverage()), "type_cov": float(inst.get_coverage())})
+    ids = {}
+    for o in out:
+        o["type_id"] = ids.setdefault(o["type_id"], len(ids))
+    return {"pair": out}
+
+
 def main():
     data = json.load(sys.stdin)
     out = []
     for case in data["cases"]:
         try:
-            out.append(run(case))
+            out.append(run_pair(case) if "pair" in case else run(case))
         except Exception as e:
             out.append({"crash": type(e).__name__ + ": " + str(e)[:300]})
     print(json.dumps({"results": out}))
